@@ -20,6 +20,9 @@ warnings.filterwarnings("ignore")
 from .tracer import TracingEnvironment, Projector, row_view, log_view, task_key  # noqa: E402
 
 
+_POLICIES = {}
+
+
 def write_workflow(path, wf):
     g = {"directed": True, "multigraph": False, "graph": {},
          "nodes": [], "edges": []}
@@ -109,26 +112,34 @@ def build(cfg, workdir, perm_seed=None, perm_kinds=None):
             rd = cfg["realDelay"]
             dm = DelayModel(rd["prob"], rd["dist"], DelayModel.DelayDegree[rd["degree"]], rd["seed"])
         planning = S.HBatchPlanning(reg, dm)
+    # scheduling-policy objects are reused by consecutive runs of one process
+    # (as an experiment loop would): they must not carry state between runs
+    def policy(key, make):
+        if key not in _POLICIES:
+            _POLICIES[key] = make()
+        return _POLICIES[key]
     if alg == "batch":
         split = None
         if cfg.get("split"):
             split = {s["o"]: (s["min"], s["max"]) for s in cfg["split"]}
-        inner = BatchProcessing(max_resource_partitions=cfg["parts"],
-                                min_resources_per_workflow=cfg["minPer"],
-                                resource_split=split)
+        inner = policy(("batch", cfg["parts"], cfg["minPer"], json.dumps(cfg.get("split") or [], sort_keys=True)),
+                       lambda: BatchProcessing(max_resource_partitions=cfg["parts"],
+                                               min_resources_per_workflow=cfg["minPer"],
+                                               resource_split=split))
         algo = S.RecordingAlgorithm(inner, proposals)
     elif alg == "queue":
-        algo = S.RecordingAlgorithm(QueueProcessing(), proposals)
+        algo = S.RecordingAlgorithm(policy("queue", QueueProcessing), proposals)
     elif alg == "plan":
-        algo = S.RecordingAlgorithm(DynamicSchedulingFromPlan(), proposals)
+        algo = S.RecordingAlgorithm(policy("plan", DynamicSchedulingFromPlan), proposals)
     elif alg == "greedy":
-        algo = S.RecordingAlgorithm(GreedySchedulingFromPlan(), proposals)
+        algo = S.RecordingAlgorithm(policy("greedy", GreedySchedulingFromPlan), proposals)
     elif alg == "adv":
         script = {}
         for s in cfg.get("adv", []):
             script[(s["o"], s["r"])] = [(p["k"], p["m"]) for p in s["prop"]]
         rng = random.Random(cfg.get("advSeed", 0)) if cfg.get("advWild", True) else None
-        algo = S.ScriptedAdversary(script, rng, proposals, wild_rounds=cfg.get("advRounds", 6))
+        algo = S.ScriptedAdversary(script, rng, proposals, wild_rounds=cfg.get("advRounds", 6),
+                                   prov=cfg.get("advProv", 0))
     else:
         raise ValueError(alg)
     sim = Simulation(env, path, Telescope, planning, 'batch', algo,
